@@ -14,13 +14,13 @@ namespace Dec.Static
 theorem all_translated3 : Dec.Gen.Code3.untranslated.isEmpty = true := by
   decide +kernel
 
-/-- the 30 functions of `translate/whitelist3.txt` (20 glue functions of d128.rs, 4 digit-group helpers of bid128_2_str_macros.rs, 6 text wrappers) are all there -/
-theorem translated3_count : Dec.Gen.Code3.translated.length = 30 := by
+/-- the 30 functions of `translate/whitelist3.txt` (20 glue functions of d128.rs, 4 digit-group helpers of bid128_2_str_macros.rs, 6 text wrappers, 4 formatter impls) are all there -/
+theorem translated3_count : Dec.Gen.Code3.translated.length = 34 := by
   decide +kernel
 
-/-- 39 glue entry points (35 + the four text entry points over the string routine as a parameter: (operators by value and by reference, compound assignments, `Neg`, integer / `u128` conversions,
+/-- 43 glue entry points (35 + the four text entry points over the string routine as a parameter + the four formatter impls over the formatter as a parameter: (operators by value and by reference, compound assignments, `Neg`, integer / `u128` conversions,
 `Default`, `copy`, `copy_sign`, `is_canonical`, `Sum`, `Product` by value and by reference) are each dispatched -/
-theorem glue_dispatched : Dec.Gen.Api3.covered.length = 39 := by
+theorem glue_dispatched : Dec.Gen.Api3.covered.length = 43 := by
   decide +kernel
 
 end Dec.Static
